@@ -17,6 +17,8 @@ Families
   goto      goto / labels: forward, backward, continue, out of closures' scopes
   manylocals one declaration introduces 100..2000 locals (no initialisers / one call / '...' /
             generic for / parameter list): operand fields must not wrap
+  manytargets one multiple assignment with 100..2000 targets fed by '...', a call, one value or N values
+  constobj  constants in object / callee / operand positions, behind 0..260 other constants
   vararg    vararg functions with 0..8 named parameters whose body only reads the implicit 'arg'
             local (R(NumParameters)) or never touches it
 """
@@ -474,6 +476,10 @@ def table_source(n, variant, nlocals=0):
         items.append("...")
     elif variant == "last_paren_call":
         items.append("(f())")
+    if variant in NOLOCALS:
+        # a function without parameters, '...' or locals: the constructor starts at register 0 and
+        # the peephole optimisations look at whatever word was emitted last
+        return "local function w()\n" + NOLOCALS[variant].replace("%T", "{" + ", ".join(items) + "}") + "\nend\nreturn w\n"
     pre = ""
     if nlocals:
         pre = "\n".join("local v%d = %d" % (i, i) for i in range(nlocals)) + "\n"
@@ -487,6 +493,13 @@ def table_source(n, variant, nlocals=0):
     return "local function w(...)\n" + body + "end\nreturn w\n"
 
 
+NOLOCALS = {
+    "nl_len": "return #%T", "nl_index": "return (%T)[1]", "nl_field": "return (%T).x", "nl_arith": "return %T + 1",
+    "nl_arith_r": "return 1 + %T", "nl_cmp": "return %T == 1", "nl_not": "return not %T", "nl_unm": "return -%T",
+    "nl_call": "return (%T)()", "nl_method": "return (%T):m()", "nl_setfield": "(%T).x = 1", "nl_setindex": "g[%T] = 1",
+    "nl_concat": "return %T .. 'x'", "nl_and": "return %T and 1", "nl_or": "g = nil or %T", "nl_if": "if %T then g = 1 end",
+    "nl_arg": "return f(%T)", "nl_nested": "return #{%T}", "nl_global": "g = %T", "nl_tkey": "return ({})[%T]",
+}
 TABLE_VARIANTS = ["plain", "keyed_mix", "index_mix", "locals", "calls", "nested", "strings", "last_call",
                   "last_varargs", "last_paren_call", "assign_to_local", "as_argument", "as_return"]
 
@@ -502,6 +515,12 @@ def table_cases(full):
         for v in ("plain", "last_call", "locals"):
             out.append(("table", "60/%s/locals%d" % (v, nl), {"n": 60, "variant": v, "nlocals": nl}))
     # the extended SETLIST form: batch number C = (n-1)/50+1 > 511  <=>  n > 25550
+    for v in NOLOCALS:
+        for n in ((0, 50, 51, 1000) if full else (51,)):
+            out.append(("table", "%d/%s" % (n, v), {"n": n, "variant": v}))
+        if full or v in ("nl_len", "nl_index", "nl_arith", "nl_cmp", "nl_unm", "nl_call", "nl_setfield", "nl_tkey"):
+            for n in ((25550, 25551, 25600, 25601) if full else (25551,)):
+                out.append(("table", "%d/%s" % (n, v), {"n": n, "variant": v}))
     big = [25500, 25550, 25551, 25600] if not full else [10000, 25500, 25549, 25550, 25551, 25552, 25600, 25601, 25650, 30000]
     for n in big:
         vs = ("plain", "last_call") if not full else ("plain", "last_call", "last_varargs", "keyed_mix", "assign_to_local", "as_return")
@@ -833,6 +852,73 @@ def manylocals_cases(full):
 
 
 # --------------------------------------------------------------------------
+# manytargets: ONE multiple assignment with N targets (temporaries pile up above the locals; the
+# range operands VARARG B / CALL C are 9 bits wide, register operands 8 bits)
+
+def manytargets_source(n, target, source, nlocals):
+    if target == "global":
+        ts = ["g%d" % i for i in range(1, n + 1)]
+    elif target == "field":
+        ts = ["t.a%d" % i for i in range(1, n + 1)]
+    elif target == "index":
+        ts = ["t[%d]" % i for i in range(1, n + 1)]
+    elif target == "upval":
+        ts = ["u%d" % (i % 3) for i in range(1, n + 1)]
+    else:                       # mixed
+        ts = [("g%d" % i) if i % 2 else ("t.a%d" % i) for i in range(1, n + 1)]
+    rhs = {"varargs": "...", "call": "f()", "one": "1", "all": ", ".join(str(i % 50) for i in range(n)),
+           "val_varargs": "1, 2, ...", "val_call": "1, f()"}[source]
+    pre = "".join("local l%d = %d\n" % (i, i) for i in range(nlocals))
+    return ("local t, u0, u1, u2 = {}\nlocal function w(...)\n" + pre + ", ".join(ts) + " = " + rhs +
+            "\nreturn g1, g2\nend\nreturn w\n")
+
+
+def manytargets_cases(full):
+    out = []
+    ns = [100, 190, 200, 250, 255, 256, 257, 300, 509, 510, 511, 512, 600, 1030]
+    if full:
+        ns += [150, 195, 199, 201, 254, 258, 400, 508, 513, 767, 768, 1023, 1024, 2000]
+    for n in ns:
+        for target in ("global", "field", "index", "upval", "mixed"):
+            for source in ("varargs", "call", "one", "all", "val_varargs", "val_call"):
+                if not full and (n + len(target) + len(source)) % 2:
+                    continue
+                out.append(("manytargets", "%d/%s/%s" % (n, target, source),
+                            {"n": n, "target": target, "source": source, "nlocals": 0 if n % 2 else 3}))
+    return out
+
+
+# --------------------------------------------------------------------------
+# constobj: constants where an object / function / table is expected (the constant must be
+# loaded into a register: an RK code does not fit a register-only operand field)
+
+CONSTOBJ = [
+    '("abc").x = 1', '("abc")[k] = 1', '("abc")[1] = 2', '(5).x = 1', '(5)[k] = 1', '(true).x = 1', '(nil).x = 1',
+    '("abc").x, ("def").y = 1, 2', '("abc").x.y = 1', 'k = ("abc").x', 'k = ("abc")[1]', 'k = (5).x', 'k = #"abc"',
+    'k = -"5"', 'k = not "abc"', '("abc"):len()', 'k = ("abc"):len()', '("abc")()', '(5)()', 'k = ("abc")(1)',
+    'k = ("abc") .. ("def")', 'k = {("abc").x}', 'function t.x() end', 'k = ("abc") == ("def")', 'k = 1 < 2', 'k = "a" < "b"',
+    'for i = "1", "2" do end', 'for kk in "abc" do end', 'return ("abc").x', 'return ("abc")()',
+]
+
+
+def constobj_source(i, npad, wrap):
+    pads = "".join("pad = 'c%d';\n" % j for j in range(npad))    # the constant gets index >= npad
+    body = "local t = {}\nlocal k;\n" + pads + CONSTOBJ[i] + "\n"
+    if wrap == "top":
+        return body + "return t.x\n" if not CONSTOBJ[i].startswith("return") else body
+    return "local function w(...)\n" + body + "end\nreturn w\n"
+
+
+def constobj_cases(full):
+    out = []
+    for i in range(len(CONSTOBJ)):
+        for npad in ((0, 1, 5, 40, 150, 198, 199, 200, 250, 260) if full else (0, 5, 40, 198, 260)):
+            for wrap in ("top", "func"):
+                out.append(("constobj", "%d/%d/%s" % (i, npad, wrap), {"i": i, "npad": npad, "wrap": wrap}))
+    return out
+
+
+# --------------------------------------------------------------------------
 # rand: random compositions of the statement kinds (nesting, long bodies)
 
 def rand_source(seed, size):
@@ -877,6 +963,8 @@ def cases(tier, seed):
     out += goto_cases()
     out += vararg_cases(full)
     out += manylocals_cases(full)
+    out += manytargets_cases(full)
+    out += constobj_cases(full)
     for i in range(1500 if full else 150):
         out.append(("rand", "%d" % i, {"seed": seed * 100000 + i, "size": rng.choice([3, 6, 12, 25])}))
     return out
@@ -899,6 +987,10 @@ def source(fam, params):
         return longjump_source(params["kind"], params["n"])
     if fam == "upvals":
         return upvals_source(params["n1"], params["n2"], params["n3"], params["mode"])
+    if fam == "manytargets":
+        return manytargets_source(params["n"], params["target"], params["source"], params["nlocals"])
+    if fam == "constobj":
+        return constobj_source(params["i"], params["npad"], params["wrap"])
     if fam == "manylocals":
         return manylocals_source(params["n"], params["form"], params["body"])
     if fam == "vararg":
